@@ -383,6 +383,7 @@ ADDENDA2 = {
     "C19": " Rounds 7-9 (bounded): units with a namesake of a flattened bundle member, flipped and one-leaf bundle ports (directions kept), units left half-way by a failed parent; stacks of 11 and more units; series ports given one by name and one as object.",
 }
 ADDENDA3 = {
+    "C06": " Round 12: the port loop of export_external_module and the signal / port / instance loops of export_module proved per iteration (one record per element, appended last; iteration sources compared as source text).",
     "C11": " Round 12: import_port_dir, import_prefix (never refuse a table entry; the member of the same name) and import_parameter_value (per variant the value the record carries), import_prefixed (what the trusted Prefixed constructor is handed) and import_primitive_params (pulse renaming inverted, missing ones None) proved; the direction and prefix round trips are lemmas over the export-side and import-side contracts.",
     "C12": " Round 12: the static audit also takes loops over expressions that are sets by their syntax (set displays, set()/frozenset(), set algebra on .keys()/.items() views).",
     "C13": " Round 12: to_scalar under contract (the Prefixed constructor - trusted - is handed the argument itself; a refused string becomes a Literal of the same text); bounded: numeric strings of 19-35 significant digits and exponents beyond a double's range.",
